@@ -3,7 +3,7 @@
 From Coq Require Import List NArith Bool Permutation.
 From SV Require Import Fmt.VpkDir Fmt.VpkDirProofs Fmt.VpkName Fmt.VpkNameSplit Fmt.VpkNameProofs SM.Vpk SM.VpkProofs.
 From SV Require Import Fmt.VpkArchName Fmt.VpkArchNameProofs SM.VpkRefine Fmt.VpkDirV2.
-From SV Require Import Fmt.VpkNullStr Fmt.VpkNullStrProofs.
+From SV Require Import Fmt.VpkNullStr Fmt.VpkNullStrProofs SM.VpkNested SM.VpkNestedProofs.
 Import ListNotations.
 Open Scope N_scope.
 
@@ -236,3 +236,37 @@ Theorem c13_nullstr_premises_satisfiable : ncodec_ok ncodec_pinned = true
   /\ iter_nullstr_k ncodec_pinned (write_section_k ncodec_pinned [[116; 120; 116]; []; repeat 101 300] ++ [1; 2])
      = Some ([[116; 120; 116]; []; repeat 101 300], [1; 2]).
 Proof. exact ncodec_pinned_ok. Qed.
+
+(** ---- the nested dicts _fileinfo[ext][folder][name] and the clean-up of VPK.__delitem__ (SM/VpkNested.v; Gen/VpkNested_gen.v g_del_prog) ---- *)
+
+(** For every clean-up program that only ever pops empty dicts ([prog_safe]: complete enumeration of what its emptiness tests can
+    observe; instance obligation on the program compiled from __delitem__) and every nested tree: the delete raises KeyError exactly
+    when the flat table has no such file, and otherwise the files left are exactly those the flat delete [adel] of SM/Vpk.v leaves
+    (same entries, same order) — no other file of the folder, the extension or the archive disappears. *)
+Theorem c13_nested_delete_is_flat_delete : forall prog, prog_safe prog = true -> forall t k,
+  match ndel prog t k with
+  | Some t' => alookup k (flat_tree t) <> None /\ flat_tree t' = adel k (flat_tree t)
+  | None => alookup k (flat_tree t) = None
+  end.
+Proof. exact ndel_is_adel. Qed.
+
+(** The same on the nested dicts that hold a table of the state machine ([tree_of tb], the tree write_dirfile walks). *)
+Theorem c13_nested_delete_on_table : forall prog, prog_safe prog = true -> forall tb k,
+  match ndel prog (tree_of tb) k with
+  | Some t' => alookup k tb <> None /\ Permutation (flat_tree t') (adel k tb)
+  | None => alookup k tb = None
+  end.
+Proof. exact ndel_tree_of. Qed.
+
+(** The pinned clean-up is accepted and leaves no empty dict behind. *)
+Theorem c13_nested_delete_pinned_ok : prog_safe del_prog_pinned = true /\ prog_tidy del_prog_pinned = true.
+Proof. exact del_prog_pinned_safe. Qed.
+
+(** Testing the files dict a second time instead of the folders dict (seeded fault c13_3) is rejected by [prog_safe], and deleting
+    a/x.t then also removes b/y.t. *)
+Theorem c13_nested_delete_wrong_test_refuted :
+  prog_safe del_prog_c13_3 = false
+  /\ option_map (@flat_tree) (ndel del_prog_c13_3 ex_tree ([116], [97], [120])) = Some []
+  /\ adel ([116], [97], [120]) (flat_tree ex_tree) = [(([116], [98], [121]), ex_info)]
+  /\ option_map (@flat_tree) (ndel del_prog_pinned ex_tree ([116], [97], [120])) = Some [(([116], [98], [121]), ex_info)].
+Proof. exact del_prog_c13_3_refuted. Qed.
